@@ -118,6 +118,13 @@ Cases == {[k |-> k, l |-> l, cause |-> cause,
                      [] cause = "ctxCancel" -> "canceled" [] cause = "ctxDeadline" -> "deadline" [] cause = "none" -> "any" [] OTHER -> "error",
            done |-> cause \in {"localClose", "peerClose", "malformed", "deadTransport"}] :
           k \in Kinds, l \in UNION {LocsOf(x) : x \in Kinds}, cause \in Causes \cup {"none"}}
-CaseSet == {x \in Cases : x.l \in LocsOf(x.k) /\ Applicable(x.k, x.l, x.cause) /\ (x.cause = "none" <=> x.k = "rdisconnect")}
+CaseSet0 == {x \in Cases : x.l \in LocsOf(x.k) /\ Applicable(x.k, x.l, x.cause) /\ (x.cause = "none" <=> x.k = "rdisconnect")}
+\* benign broker traffic that precedes the call on the established connection and concerns nobody: an unsolicited
+\* (or late) PINGRESP, acknowledgements for identifiers nobody waits for, an application message.  None of it is
+\* a step of the model above (no variable changes), so the demands of a case are the same with and without it.
+Preludes == {"pingresp", "foreignAcks", "inbound"}
+WithPre(x, p) == [k |-> x.k, l |-> x.l, cause |-> x.cause, cls |-> x.cls, done |-> x.done, pre |-> p]
+CaseSet == {WithPre(x, "") : x \in CaseSet0}
+           \cup {WithPre(x, p) : x \in {y \in CaseSet0 : y.l \in {"waitAck", "waitComp"}}, p \in Preludes}
 ASSUME ndJsonSerialize("blocking_cases.ndjson", SetToSeq(CaseSet))
 =============================================================================
